@@ -4244,3 +4244,89 @@ let program_of_script script =
      | Some _ -> None
      | None -> program_of_symbols syms stmts)
   | _ -> None
+
+(** val splitlines_keep : char list -> char list -> char list list **)
+
+let rec splitlines_keep cur = function
+| [] -> (match cur with
+         | [] -> []
+         | _::_ -> (rev_str cur []) :: [])
+| c::r ->
+  if is_linesep c
+  then if (=) c cr
+       then (match r with
+             | [] -> (rev_str (c::cur) []) :: (splitlines_keep [] r)
+             | c2::r2 ->
+               if (=) c2 nl
+               then (rev_str (c2::(c::cur)) []) :: (splitlines_keep [] r2)
+               else (rev_str (c::cur) []) :: (splitlines_keep [] r))
+       else (rev_str (c::cur) []) :: (splitlines_keep [] r)
+  else splitlines_keep (c::cur) r
+
+(** val concat_s : char list list -> char list **)
+
+let rec concat_s = function
+| [] -> []
+| x :: r -> append x (concat_s r)
+
+(** val join_s : char list -> char list list -> char list **)
+
+let rec join_s sep = function
+| [] -> []
+| x :: r ->
+  (match r with
+   | [] -> x
+   | _ :: _ -> append x (append sep (join_s sep r)))
+
+(** val prefix8 : char list **)
+
+let prefix8 =
+  ' '::(' '::(' '::(' '::(' '::(' '::(' '::(' '::[])))))))
+
+(** val indent8 : char list -> char list **)
+
+let indent8 text =
+  concat_s
+    (map (fun line -> if is_blank line then line else append prefix8 line)
+      (splitlines_keep [] text))
+
+(** val default_converter : char list -> char list -> char list **)
+
+let default_converter equation code =
+  append
+    (join_nl
+      (map (fun x -> append ('#'::(' '::[])) x) (splitlines_aux [] equation)))
+    (append nl_s code)
+
+(** val converted : symbol -> char list option **)
+
+let converted s =
+  match s.sequation with
+  | Some e ->
+    (match s.scode with
+     | Some c -> Some (default_converter e c)
+     | None -> None)
+  | None -> None
+
+(** val somes_of : 'a1 option list -> 'a1 list **)
+
+let rec somes_of = function
+| [] -> []
+| o :: r -> (match o with
+             | Some a -> a :: (somes_of r)
+             | None -> somes_of r)
+
+(** val equations_block : symbol list -> char list **)
+
+let equations_block syms =
+  match somes_of (map converted (filter emits syms)) with
+  | [] ->
+    ' '::(' '::(' '::(' '::(' '::(' '::(' '::(' '::('p'::('a'::('s'::('s'::[])))))))))))
+  | s :: l -> join_s (append nl_s nl_s) (map indent8 (s :: l))
+
+(** val block_of_script : char list -> char list option **)
+
+let block_of_script script =
+  match parse_model_nocheck script with
+  | POk syms -> Some (equations_block syms)
+  | _ -> None
